@@ -211,11 +211,11 @@ def main():
         groups['bulk'] += DEFECT_CASES
         budget = [8 if thorough else 2]
         scale = float(os.environ.get('VERIF_SCALE', '1'))
-        for i in range(int((6000 if thorough else 400) * scale)):
+        for i in range(int((6000 if thorough else 800) * scale)):
             groups['iq'].append(gen_ciq(rng, f'q{base_seed}n{i}'))
-        for i in range(int((100 if thorough else 10) * scale)):
+        for i in range(int((100 if thorough else 16) * scale)):
             groups['bulk'].append(gen_arith(rng, f'a{base_seed}n{i}', budget))
-        for i in range(int((1200 if thorough else 50) * scale)):
+        for i in range(int((1200 if thorough else 90) * scale)):
             groups['bulk'].append(gen_live(rng, f'l{base_seed}n{i}', 2000000 if thorough else 200000))
 
     def run_groups(gr, tag):
